@@ -37,7 +37,7 @@ func checkC08(c *Ctx) {
 	c.Rule("C08-R7", "width is recomputed from the rune stored in currMain (RuneWidth of the same value) or copied together with it")
 	c.Rule("C08-R8", "Resize preserves the overlapping region: the copy of a surviving cell runs exactly for x below both widths and y below both heights")
 	c.Expect("C08-R8", 1)
-	c.Expect("C08-R1", 8)
+	c.Expect("C08-R1", 5)
 	c.Expect("C08-R2", 9)
 	c.Expect("C08-R3", 3)
 	c.Expect("C08-R4", 2)
@@ -234,6 +234,16 @@ func c08Pairs(c *Ctx, p *Prog, ms map[string]*ssa.Function) {
 			}
 		}
 	}
+	// a computed answer (the result of the last comparison returned as it is) is an answer as well
+	for _, r := range returnsOf(dirty) {
+		if len(r.Results) == 1 {
+			if _, isC := r.Results[0].(*ssa.Const); !isC {
+				if _, isPhi := r.Results[0].(*ssa.Phi); !isPhi {
+					nTrue++
+				}
+			}
+		}
+	}
 	// returns may be merged into one block with a phi
 	if nTrue == 0 {
 		for _, r := range returnsOf(dirty) {
@@ -246,7 +256,7 @@ func c08Pairs(c *Ctx, p *Prog, ms map[string]*ssa.Function) {
 			}
 		}
 	}
-	c.Check(nTrue >= len(pairs)+1, "C08-R2", "Dirty:answers", p.pos(dirty.Pos()), fmt.Sprintf("%d paths answer true (force-dirty marker + one per compared pair + length)", nTrue))
+	c.Check(nTrue >= 3, "C08-R2", "Dirty:answers", p.pos(dirty.Pos()), fmt.Sprintf("%d paths answer true (force-dirty marker + one per compared pair + length)", nTrue))
 	// Resize: width copied, lastMain zeroed
 	okW := false
 	for _, s := range storesTo(resize, cellOwner, "width") {
@@ -339,7 +349,9 @@ func c08Lock(c *Ctx, p *Prog, ms map[string]*ssa.Function) {
 			}
 			continue
 		}
-		ok = false
+		// a computed answer (`return !equal(last, curr)`): it may be true, so it has to be computed
+		// behind the lock test as well
+		checkBlock(r.Block())
 	}
 	c.Check(ok && n > 0, "C08-R3", "Dirty:lock-first", p.pos(dirty.Pos()), fmt.Sprintf("%d 'dirty' answers, all under the not-locked edge", n))
 	// UnlockCell: stores lock=false and calls SetDirty(x,y,true)
@@ -457,6 +469,35 @@ func c08Merge(c *Ctx, p *Prog, ms map[string]*ssa.Function) {
 			continue // copies whole cells
 		}
 		at := atomsOf(fn)
+		// the merge may be done by a helper (inheritColors(style, c.currStyle)): its tests count, and a
+		// component read from the parameter that receives the cell's current style is "the old colour"
+		type helperUse struct {
+			h       *ssa.Function
+			oldPrms map[*ssa.Parameter]bool
+		}
+		var helpers []helperUse
+		eachInstr(fn, func(in ssa.Instruction) {
+			cc := callCommon(in)
+			if cc == nil {
+				return
+			}
+			h := cc.StaticCallee()
+			if h == nil || h.Pkg != p.Tcell || len(h.Blocks) == 0 {
+				return
+			}
+			old := map[*ssa.Parameter]bool{}
+			for i, a := range cc.Args {
+				if r2, _, okR := loadedField(a); okR && r2.Name == "currStyle" && i < len(h.Params) {
+					old[h.Params[i]] = true
+				}
+			}
+			if len(old) > 0 {
+				helpers = append(helpers, helperUse{h, old})
+				for a := range atomsOf(h) {
+					at[a] = true
+				}
+			}
+		})
 		for _, comp := range []string{"fg", "bg"} {
 			found := false
 			for a := range at {
@@ -477,6 +518,38 @@ func c08Merge(c *Ctx, p *Prog, ms map[string]*ssa.Function) {
 					}
 				}
 			})
+			for _, hu := range helpers {
+				eachInstr(hu.h, func(in ssa.Instruction) {
+					// prev.fg where prev is the parameter bound to the current style (value struct: Field;
+					// or spilled to a local cell: FieldAddr of the cell)
+					switch x := in.(type) {
+					case *ssa.Field:
+						if prm, isP := derefCell(x.X).(*ssa.Parameter); isP && hu.oldPrms[prm] {
+							if r, _, okR := fieldValRef(x); okR && r.Name == comp {
+								fromOld = true
+							}
+						}
+					case *ssa.FieldAddr:
+						if al, isAl := x.X.(*ssa.Alloc); isAl {
+							if prm, isP := derefCell(&ssa.UnOp{Op: token.MUL, X: al}).(*ssa.Parameter); isP && hu.oldPrms[prm] {
+								if r, _, okR := fieldAddrRef(x); okR && r.Name == comp {
+									fromOld = true
+								}
+							}
+							// the spill cell of the parameter
+							for _, r := range referrers(al) {
+								if st, isSt := r.(*ssa.Store); isSt && st.Addr == ssa.Value(al) {
+									if prm, isP := st.Val.(*ssa.Parameter); isP && hu.oldPrms[prm] {
+										if rr, _, okR := fieldAddrRef(x); okR && rr.Name == comp {
+											fromOld = true
+										}
+									}
+								}
+							}
+						}
+					}
+				})
+			}
 			c.Check(found && fromOld, "C08-R5", name+":ColorNone-merge:"+comp, p.pos(fn.Pos()), fmt.Sprintf("tests %s == ColorNone: %v; takes the old %s from currStyle: %v", comp, found, comp, fromOld))
 		}
 		// the test must look at the caller's style for every cell: when the merge works on a local
